@@ -66,6 +66,17 @@ CHECKS['C04'] = dict(
     note='values are distinguishable tokens (no symbolic strings); read_user_variables stubbed; cyclic variable definitions excluded.',
     design='DESIGN.md section 2 C04')
 
+CHECKS['C09'] = dict(
+    engine='crosshair',
+    technique='CrossHair symbolic execution (z3) of PEP316 contracts over the real parse/print/classify functions, symbolic characters; counterexamples replayed natively',
+    text='Thirteen contracts (print/parse round trips, relative vs absolute spelling, idempotent expansion, classification of reserved / '
+         'manifest / application-dependency / absolute / variable first segments, uid escaping) are searched by CrossHair with one symbolic '
+         'string of <=3-4 characters each. Conditions CrossHair exhausts are discharged obligations within that length; the others are '
+         'bug-hunting only (reported as inconclusive in the evidence).',
+    note='CrossHair\'s str/regex model is trusted only for confirmations; every counterexample is replayed on the real code; a native '
+         'sweep over an 8-letter alphabet backs each contract and serves as vacuity witness.',
+    design='DESIGN.md section 2 C09')
+
 NOT_APPLICABLE = {
     'C07': 'round trip through the real file system, PyYAML (C) and Experiment construction: nothing on the path can be made symbolic; the technique would degenerate to example testing',
     'C15': 'quantifies over processes with different hash seeds / directory listing orders, which are not values inside one symbolic execution',
